@@ -35,6 +35,25 @@ def capture(net, ac=True, **kw):
         box["gen_index"] = [int(i) for i in net.gen.index]
         box["dcl_index"] = [int(i) for i in net.dcline.index]
         box["gen_order"] = dict(net._gen_order)
+        box["gen_table"] = net.gen.copy()
+        box["options"] = dict(net._options)
+        box["is_elements"] = {k: np.array(v).copy() for k, v in net._is_elements.items() if v is not None and not isinstance(v, dict)}
+        # the dcline constraint rows _add_dcline_constraints would hand to the OPF model
+        if len(net.dcline) > 0:
+            class _OM:
+                def __init__(s): s.rec = None
+                def get_ppc(s): return ppci
+                def add_constraints(s, name, A, l, u, varsets=None):
+                    s.rec = (A.toarray().copy(), np.array(l, dtype=float).copy(), np.array(u, dtype=float).copy())
+                    return s
+            fom = _OM()
+            try:
+                om._add_dcline_constraints(fom, net)
+                box["dc_rows"] = fom.rec
+                box["dc_raise"] = fom.rec is not None and fom.rec[0].shape[0] != len(fom.rec[1])
+            except Exception as e:
+                box["dc_rows"] = None
+                box["dc_raise"] = True
         box["ppci"] = ppci
         raise _Captured()
 
@@ -141,7 +160,7 @@ def gen_net(rng, pwl=False, oos=0.15, gap=0.4, quad=True, ndc_max=2, q_cost=True
                 hi = lo + (rng.randint(1, 4) * 0.5 if et != "ext_grid" else 50.0)
                 pts.append([lo, hi, slope])
                 lo = hi
-                slope = slope + rng.choice([0.0, 1.0, 2.0, -1.0])
+                slope = slope + rng.choice([0.0, 1.0, 2.0])   # convex (pypower's CCV formulation needs it)
             pp.create_pwl_cost(net, el, et, pts, power_type="q" if (use_q and rng.random() < 0.2) else "p")
         else:
             kw = dict(cp1_eur_per_mw=float(rng.randint(-2, 6)),
